@@ -1229,6 +1229,7 @@ func runC14(c *Ctx) {
 	c.lateDerived("C14")
 	c.reentrant("C14")
 	c.interfering("C14")
+	c.reduceInitials("C14")
 	// a callback whose result cannot be stored: every Map variant panics (nothing is silently left out), the source stays
 	m.Case("unstorable-results")
 	{
@@ -1616,6 +1617,7 @@ func runC19(c *Ctx) {
 	c.derivedCorners("C19")
 	c.lateDerived("C19")
 	c.overriding("C19")
+	c.selfStore("C19")
 	c.longLists("C19")
 	for lvl := 1; lvl <= 2; lvl++ {
 		for rep := 0; rep < c.N(3, 30); rep++ {
@@ -1685,6 +1687,59 @@ func runC19(c *Ctx) {
 					}
 					m.Slice(rep)
 					m.IndexOf(rep, m.RefGV(dv))
+				}
+			}
+			// derived values that arrive inside a native slice / map of every flavour that can carry them: the stored
+			// element is the identical outer value for every way of reading it
+			probeHolder := func(h string, kind byte) {
+				if h == "" {
+					return
+				}
+				if h[0] == 'L' {
+					m.Get(h, 0)
+					m.GetK(h, kind, 0)
+					m.Slice(h)
+					m.SliceK(h, kind)
+					m.ForEach(h)
+					m.ForEachK(h, kind)
+					m.FilterK(h, kind, "all")
+					m.MapK(h, kind, &Fn{Name: "id"})
+					m.GetTF(h, "#0")
+					m.IndexOf(h, m.RefGV(map[byte]string{'l': d, 'o': dO}[kind]))
+				} else {
+					m.OGet(h, "k")
+					m.OGetK(h, kind, "k")
+					m.Dict(h)
+					m.OForEach(h)
+					m.OForEachK(h, kind)
+					m.OMapK(h, kind, &Fn{Name: "id"})
+					m.OGetTF(h, ".k")
+					m.Values(h)
+				}
+			}
+			for _, fl := range []struct {
+				kind byte
+				dv   string
+			}{{'l', d}, {'o', dO}} {
+				for _, flavour := range []byte{fl.kind, 'a'} {
+					sl := &GV{K: '(', Fl: flavour, Xs: []*GV{m.RefGV(fl.dv)}}
+					mp := &GV{K: '<', Fl: flavour, Xs: []*GV{m.RefGV(fl.dv)}, Keys: []string{"k"}}
+					probeHolder(m.NewListFrom(sl), fl.kind)
+					probeHolder(m.NewObjectFrom(mp), fl.kind)
+					outer := m.NewList(sl, mp)
+					if outer != "" {
+						probeHolder(m.tokVal(m.L(outer).Get(0)), fl.kind)
+						probeHolder(m.tokVal(m.L(outer).Get(1)), fl.kind)
+					}
+					acc := m.NewList()
+					m.Add(acc, sl)
+					m.Insert(acc, 0, mp)
+					probeHolder(m.tokVal(m.L(acc).Get(1)), fl.kind)
+					probeHolder(m.tokVal(m.L(acc).Get(0)), fl.kind)
+					oacc := m.NewObject()
+					m.OSet(oacc, gvStr("s"), sl, gvStr("m"), mp)
+					probeHolder(m.tokVal(m.O(oacc).Get("s")), fl.kind)
+					probeHolder(m.tokVal(m.O(oacc).Get("m")), fl.kind)
 				}
 			}
 			holder := m.NewList(m.RefGV(d), m.RefGV(dO), gvInt(0), m.RefGV(raw))
